@@ -4,6 +4,12 @@ Space: 9 primitives; class descriptors = every package path of depth 0..3 (thoro
 alphabet SEGS x every simple name of NAMES; every element type wrapped in 0..3 (thorough 0..4) array dimensions
 (void is not an array element); `size` argument in {None, 0, 7}; both `androguard.decompiler.util.get_type` and
 `androguard.core.dex.get_type`.
+Decompiled-source positions (generated DEX, gen/dexgen.py): for the reduced set SRC_TYPES (every primitive, 36 class
+descriptors of every shape class, 30 arrays of depth 1-3) classes are generated that use the type as static/instance
+field, parameter, return type, local declaration, cast, instanceof, const-class, new-instance, owner of a static
+field / static call, new-array, and classes NAMED by each class descriptor with tricky superclass and interfaces; the
+type texts are cut out of `DvClass.get_source()` (class header: package + name, extends, implements, constructor name)
+and judged by the same reference.  Canonical or fully qualified is accepted at every source position.
 
 Oracle (written here, independent of the code under test): the element type is rendered as the primitive keyword
 or as the dotted class name; the canonical form drops `java.lang.` only when the class is a direct member of
@@ -27,12 +33,15 @@ PROPERTY = "C24"
 LEVEL = "exploration"
 RULE = ("full product: (9 primitives + every package path of depth 0..3 (thorough 0..4) over a 10-segment alphabet x 6 "
         "simple names) x array depth 0..3 (thorough 0..4) x size {None,0,7} x {util.get_type, dex.get_type}; "
-        "non-trivial = class descriptor or array; distinct by (function, descriptor, size), measured by hash")
+        "plus 75 descriptors x 15 kinds of position in DvClass.get_source() of generated classes; "
+        "non-trivial = class descriptor or array; distinct by (function, descriptor, size) / (position, descriptor), "
+        "measured by hash")
 ASSUMPTIONS = [
     "the reference naming rules (25 lines in checks/c24.py) are trusted",
     "the size argument is judged only for bracket structure; presence/position of the printed size is not judged",
-    "DvClass.get_source field/parameter/return positions are not rendered (no DEX generator); it is checked that "
-    "writer.get_type and basic_blocks.get_type are the very function util.get_type that is enumerated",
+    "source positions are rendered for the reduced set SRC_TYPES only (75 descriptors covering every shape class); for "
+    "the full product it is checked that writer.get_type and basic_blocks.get_type are the very function util.get_type "
+    "that is enumerated; gen/dexgen.py (independent DEX writer) is trusted for the generated classes",
 ]
 MANIFEST = {
     "engine": "E1-product",
@@ -43,8 +52,9 @@ MANIFEST = {
             "computed by an independent reference; complete for the stated alphabet and bound, which contains every "
             "java.lang subpackage / look-alike-package shape the statement singles out.",
     "note": "Trusted: the reference naming function in checks/c24.py. dex.get_type may answer canonical or fully "
-            "qualified. The printed array size is judged for bracket structure only. get_source positions are covered "
-            "by identity of the function objects used by the writer, not by rendering a DEX.",
+            "qualified. The printed array size is judged for bracket structure only. DvClass.get_source positions (field, "
+            "parameter, return, local, cast, instanceof, const-class, new, new-array, owners, class header, constructor) "
+            "are rendered from generated DEX files for 75 descriptors covering every shape class; gen/dexgen.py trusted.",
 }
 
 PRIMS = {"V": "void", "Z": "boolean", "B": "byte", "S": "short", "C": "char",
@@ -63,7 +73,10 @@ def space(ctx):
     pd, ad = _bounds(ctx)
     return {"primitives": sorted(PRIMS), "package_segments": SEGS, "package_depth": [0, pd], "simple_names": NAMES,
             "array_depth": [0, ad], "size_argument": [repr(s) for s in SIZES],
-            "functions": ["androguard.decompiler.util.get_type", "androguard.core.dex.get_type"]}
+            "functions": ["androguard.decompiler.util.get_type", "androguard.core.dex.get_type"],
+            "source_positions": {"descriptors": SRC_TYPES, "positions": ["field", "param", "return", "local", "cast",
+                                 "instanceof", "const-class", "new-instance", "static-field-owner", "invoke-owner",
+                                 "new-array", "class-name", "extends", "implements", "constructor"]}}
 
 
 # ---------------------------------------------------------------------------------- reference model
@@ -127,13 +140,21 @@ def judge(fname, fn, desc, size):
     call = "%s.get_type(%r%s)" % (fname, desc, "" if size is None else ", %r" % (size,))
     if not isinstance(got, str):
         return repr(got), ("%s:%s:not-a-string" % (fname, shape(elem)), "%s returned %r" % (call, got))
+    bad = judge_text(got, desc, size, (canon,) if fname == "util" else (canon, qual))
+    if bad is None:
+        return got, None
+    if bad[0] == "elem":
+        return got, ("%s:%s" % (fname, shape(elem)), "%s = %r: %s" % (call, got, bad[1]))
+    return got, ("%s:array:dim%d%s" % (fname, dims, "" if size is None else ":sized"), "%s = %r: %s" % (call, got, bad[1]))
+
+
+def judge_text(got, desc, size, allowed):
+    """Is the text `got` a rendering of descriptor `desc`?  None, or ("elem" | "array", what is wrong)."""
+    dims, _ = split_desc(desc)
     m = _RES.match(got)
     g_elem, g_br = m.group(1), _PAIR.findall(m.group(2))
-    allowed = (canon,) if fname == "util" else (canon, qual)
     if g_elem not in allowed:
-        return got, ("%s:%s" % (fname, shape(elem)),
-                     "%s = %r: element type rendered %r, expected %s"
-                     % (call, got, g_elem, " or ".join(repr(a) for a in allowed)))
+        return "elem", "element type rendered %r, expected %s" % (g_elem, " or ".join(repr(a) for a in allowed))
     ok_br = len(g_br) == dims
     if ok_br:
         if size is None:
@@ -141,9 +162,178 @@ def judge(fname, fn, desc, size):
         else:
             ok_br = all(b in ("", str(size)) for b in g_br) and sum(1 for b in g_br if b != "") <= 1
     if not ok_br:
-        return got, ("%s:array:dim%d%s" % (fname, dims, "" if size is None else ":sized"),
-                     "%s = %r: %d bracket pair(s) %r for %d dimension(s)" % (call, got, len(g_br), g_br, dims))
-    return got, None
+        return "array", "%d bracket pair(s) %r for %d dimension(s)" % (len(g_br), g_br, dims)
+    return None
+
+
+# ---------------------------------------------------------------------------------- decompiled-source positions
+# Reduced descriptor set: every primitive, class descriptors of every shape class of the alphabet, arrays of depth 1-3.
+SRC_CLASSES = [
+    "LString;", "La;", "LObject$1;", "LL;",                                                       # default package
+    "Ljava/lang/String;", "Ljava/lang/Long;", "Ljava/lang/annotation;", "Ljava/lang/a;", "Ljava/lang/L;",
+    "Ljava/lang/Object$1;",                                                                       # java.lang direct
+    "Ljava/lang/ref/String;", "Ljava/lang/annotation/Long;", "Ljava/lang/a/a;", "Ljava/lang/java/lang/String;",
+    "Ljava/lang/l/Object$1;", "Ljava/lang/lang/L;", "Ljava/lang/ja/annotation;",                  # java.lang subpackage
+    "Ljava/language/String;", "Ljava/langx/L;", "Ljava/language/a/annotation;", "Ljava/langx/lang/Long;",   # look-alike
+    "La/java/lang/String;", "Ljavax/java/lang/Long;", "Ll/java/lang/a;",                          # java.lang not at start
+    "Ljava/ref/String;", "Ljavax/lang/String;", "Lja/lang/Long;", "Ljava/a/L;", "Ljava/String;", "Ljavax/annotation/a;",
+    "Llang/String;", "La/l/Object$1;", "Lref/annotation/a;", "Lannotation/L;", "Ll/a;", "Llang/java/Long;",
+]
+SRC_ARRAYS = ["[I", "[[J", "[[[Z", "[B", "[S", "[[C", "[F", "[[[D",
+              "[LString;", "[[La;", "[[[LObject$1;",
+              "[Ljava/lang/String;", "[[Ljava/lang/Long;", "[[[Ljava/lang/a;", "[Ljava/lang/Object$1;",
+              "[Ljava/lang/ref/String;", "[[Ljava/lang/annotation/Long;", "[[[Ljava/lang/a/a;",
+              "[Ljava/language/String;", "[[Ljava/langx/L;", "[[[Ljava/language/a/annotation;",
+              "[La/java/lang/String;", "[[Ljavax/java/lang/Long;", "[[[Ll/java/lang/a;",
+              "[Ljavax/lang/String;", "[[Ljava/ref/String;", "[[[Lja/lang/Long;",
+              "[Llang/String;", "[[La/l/Object$1;", "[[[Lref/annotation/a;"]
+SRC_TYPES = list("ZBSCIJFDV") + SRC_CLASSES + SRC_ARRAYS
+N_SRC = 24
+OBJ = "Ljava/lang/Object;"
+BODY_POS = {           # method prefix -> (position name, regex on the method's source; group 1 = type text)
+    "loc": ("local", r"^\s+(.+) v0(?:_\d+)? = K\.mk\(\);$"),
+    "cst": ("cast", r"return \(\((.+)\) p0\);"),
+    "iof": ("instanceof", r"return \(p1 instanceof (.+)\);"),
+    "cls": ("const-class", r"return (.+);"),
+    "new": ("new-instance", r"return new (.+)\(\);"),
+    "sta": ("static-field-owner", r"return (.+)\.fld;"),
+    "inv": ("invoke-owner", r"^\s+(.+)\.sm\(\);$"),
+}
+
+
+class SourceLayout(Exception):
+    """The decompiled text does not have the layout the extractor expects (harness problem, not a violation)."""
+
+
+def _super_of(t):
+    i = SRC_CLASSES.index(t)
+    n = len(SRC_CLASSES)
+    return SRC_CLASSES[(i + 7) % n], (SRC_CLASSES[(i + 13) % n], SRC_CLASSES[(i + 22) % n])
+
+
+def build_source_dex(types):
+    from gen import dalvik as D, dexgen as G
+    st = G.ACC_PUBLIC | G.ACC_STATIC
+    ms, sf, inf, classes = [], [], [], []
+    for i, t in enumerate(types):
+        wide, ref = t in ("J", "D"), t[0] in "L["
+        nreg = 2 if wide else 1
+        if t != "V":
+            sf.append(G.Field("sf%d" % i, t, st))
+            inf.append(G.Field("if%d" % i, t, G.ACC_PRIVATE))
+            ms.append(G.Method("par%d" % i, "V", (t, "I", t), st, G.Code(2 * nreg + 1, 2 * nreg + 1, 0, D.enc("return-void"))))
+        mv = "move-result-wide" if wide else ("move-result-object" if ref else "move-result")
+        rt = "return-wide" if wide else ("return-object" if ref else "return")
+
+        def ret(ix, t=t, wide=wide, ref=ref, rt=rt):
+            if t == "V":
+                return D.enc("return-void")
+            return (D.enc("const-wide/16", 0, 0) if wide else D.enc("const/4", 0, 0)) + D.enc(rt, 0)
+        ms.append(G.Method("ret%d" % i, t, (), st, G.Code(2, 0, 0, ret)))
+        if t != "V":
+            def loc(ix, t=t, wide=wide, mv=mv, rt=rt):
+                b = D.enc("invoke-static", ix.method("LK;", "mk", t, ()), []) + D.enc(mv, 0)
+                b += D.enc("invoke-static", ix.method("LK;", "use", "V", (t,)), [0, 1] if wide else [0])
+                return b + D.enc(rt, 0)
+            ms.append(G.Method("loc%d" % i, t, (), st, G.Code(2, 0, 2, loc)))
+        if ref:
+            ms.append(G.Method("cst%d" % i, OBJ, (OBJ,), st, G.Code(1, 1, 0, lambda ix, t=t: D.enc("check-cast", 0, ix.type(t)) + D.enc("return-object", 0))))
+            ms.append(G.Method("iof%d" % i, "Z", (OBJ,), st, G.Code(2, 1, 0, lambda ix, t=t: D.enc("instance-of", 0, 1, ix.type(t)) + D.enc("return", 0))))
+            ms.append(G.Method("cls%d" % i, "Ljava/lang/Class;", (), st, G.Code(1, 0, 0, lambda ix, t=t: D.enc("const-class", 0, ix.type(t)) + D.enc("return-object", 0))))
+        if t[0] == "L":
+            ms.append(G.Method("new%d" % i, OBJ, (), st, G.Code(1, 0, 1, lambda ix, t=t: D.enc("new-instance", 0, ix.type(t)) + D.enc("invoke-direct", ix.method(t, "<init>", "V", ()), [0]) + D.enc("return-object", 0))))
+            ms.append(G.Method("sta%d" % i, "I", (), st, G.Code(1, 0, 0, lambda ix, t=t: D.enc("sget", 0, ix.field(t, "fld", "I")) + D.enc("return", 0))))
+            ms.append(G.Method("inv%d" % i, "V", (), st, G.Code(1, 0, 0, lambda ix, t=t: D.enc("invoke-static", ix.method(t, "sm", "V", ()), []) + D.enc("return-void"))))
+            sup, itf = _super_of(t)
+            ctor = G.Method("<init>", "V", (), G.ACC_PUBLIC | G.ACC_CONSTRUCTOR, G.Code(1, 1, 1, lambda ix, sup=sup: D.enc("invoke-direct", ix.method(sup, "<init>", "V", ()), [0]) + D.enc("return-void")))
+            classes.append(G.Class(t, superclass=sup, interfaces=itf, dmethods=[ctor]))
+        if t[0] == "[":
+            ms.append(G.Method("arr%d" % i, OBJ, (), st, G.Code(1, 0, 0, lambda ix, t=t: D.enc("const/4", 0, 3) + D.enc("new-array", 0, 0, ix.type(t)) + D.enc("return-object", 0))))
+    holder = G.Class("Lp/H;", sfields=sf, ifields=inf, dmethods=ms)
+    return G.build(G.Dex([holder] + classes))
+
+
+def source_positions(types):
+    """Decompile the generated classes and cut the type texts out: -> list of (position, descriptor, text, size, mode)
+    mode: "type" (canonical or qualified accepted), "qualified-name" (package + class name), "simple-name"."""
+    from androguard.core import dex
+    from androguard.core.analysis.analysis import Analysis
+    from androguard.decompiler.decompile import DvClass, DvMethod
+    vm = dex.DEX(build_source_dex(types))
+    dx = Analysis(vm)
+    out = []
+
+    def need(rx, text, what, flags=re.M):
+        m = re.search(rx, text, flags)
+        if not m:
+            raise SourceLayout("%s: /%s/ not found in:\n%s" % (what, rx, text[:600]))
+        return m
+    for c in vm.get_classes():
+        dc = DvClass(c, dx)
+        dc.process()
+        src = dc.get_source()
+        msrc = {m.name: m.get_source() for m in dc.methods if isinstance(m, DvMethod)}
+        if c.get_name() == "Lp/H;":
+            for i, t in enumerate(types):
+                if t != "V":
+                    out.append(("field", t, need(r"^    public static (.+) sf%d;$" % i, src, "static field %d" % i).group(1), None, "type"))
+                    out.append(("field", t, need(r"^    private (.+) if%d;$" % i, src, "instance field %d" % i).group(1), None, "type"))
+                    m = need(r"^    public static void par%d\((.+) p0, int p\d+, (.+) p\d+\)$" % i, src, "parameters %d" % i)
+                    out.append(("param", t, m.group(1), None, "type"))
+                    out.append(("param", t, m.group(2), None, "type"))
+                out.append(("return", t, need(r"^    public static (.+) ret%d\(\)$" % i, src, "return type %d" % i).group(1), None, "type"))
+                for pre, (pos, rx) in BODY_POS.items():
+                    text = msrc.get("%s%d" % (pre, i))
+                    if text is not None:
+                        out.append((pos, t, need(rx, text, "%s %d" % (pos, i)).group(1), None, "type"))
+                text = msrc.get("arr%d" % i)
+                if text is not None:
+                    m = need(r"^\s+(.+) v0(?:_\d+)? = new (.+);$", text, "new-array %d" % i)
+                    out.append(("local", t, m.group(1), None, "type"))
+                    out.append(("new-array", t, m.group(2), 3, "type"))
+        else:
+            t = c.get_name()
+            sup, itf = _super_of(t)
+            pk = re.search(r"^package (.+);$", src, re.M)
+            m = need(r"^public class (.+?) extends (.+?) implements (.+) \{$", src, "class header of %s" % t)
+            out.append(("class-name", t, (pk.group(1) + "." if pk else "") + m.group(1), None, "qualified-name"))
+            out.append(("extends", sup, m.group(2), None, "type"))
+            got_itf = m.group(3).split(", ")
+            if len(got_itf) != len(itf):
+                raise SourceLayout("class header of %s lists %d interfaces: %r" % (t, len(got_itf), m.group(3)))
+            for d, g in zip(itf, got_itf):
+                out.append(("implements", d, g, None, "type"))
+            out.append(("constructor", t, need(r"^    public (.+)\(\)$", src, "constructor of %s" % t).group(1), None, "simple-name"))
+    return out
+
+
+def judge_source(types):
+    """-> (positions, list of (key, position, descriptor, message), number subsumed).  Shared by run_shard and replay.
+    A member position that prints exactly what util.get_type() returns for a descriptor on which util.get_type is
+    already reported is not reported again (one defect of that function = its util:* keys only)."""
+    out = []
+    subsumed = 0
+    util_fn = dict(_fns())["util"]
+    pos = source_positions(types)
+    for where, desc, got, size, mode in pos:
+        dims, elem = split_desc(desc)
+        canon, qual = ref_element(elem)
+        if mode == "type":
+            bad = judge_text(got, desc, size, (canon, qual))
+        elif mode == "qualified-name":
+            bad = None if got == qual else ("elem", "package + class name give %r, expected %r" % (got, qual))
+        else:
+            want = qual.rsplit(".", 1)[-1]
+            bad = None if got == want else ("elem", "constructor named %r, expected %r" % (got, want))
+        if bad and mode == "type" and size is None:
+            ugot, ubad = judge("util", util_fn, desc, None)
+            if ubad and ugot == got:
+                subsumed += 1
+                continue
+        if bad:
+            key = "source:%s:%s" % (where, shape(elem)) if bad[0] == "elem" else "source:%s:array:dim%d" % (where, dims)
+            out.append((key, where, desc, "decompiled source, %s position, descriptor %r printed as %r: %s" % (where, desc, got, bad[1])))
+    return pos, out, subsumed
 
 
 # ---------------------------------------------------------------------------------- enumeration
@@ -158,7 +348,7 @@ def elements(ctx):
 
 
 def shards(ctx):
-    return [("elems", i) for i in range(NSHARDS)]
+    return [("elems", i) for i in range(NSHARDS)] + [("src", i) for i in range(N_SRC)]
 
 
 def _fns():
@@ -167,7 +357,34 @@ def _fns():
     return (("util", util.get_type), ("dex", dex.get_type))
 
 
+def run_source_shard(ctx, shard):
+    acc = Acc()
+    types = SRC_TYPES[shard[1]::N_SRC]
+    try:
+        pos, bad, subsumed = judge_source(types)
+        acc.count("source_subsumed_by_util", subsumed)
+    except SourceLayout as e:
+        acc.harness_error("source positions: %s" % e)
+        return acc
+    except Exception as e:          # noqa
+        acc.violation("source:raises", {"fn": "source", "types": types, "pos": None, "desc": None},
+                      "decompiling classes using %r raised %s: %s" % (types, type(e).__name__, e))
+        return acc
+    for where, desc, got, size, mode in pos:
+        acc.case(nontrivial=("source", where, desc, got) if desc not in PRIMS else None, outcome=(where, got))
+        acc.count("source_positions")
+        acc.count("source_position:" + where)
+        acc.count("source_shape:" + shape(split_desc(desc)[1]))
+    for key, where, desc, msg in bad:
+        acc.violation(key, {"fn": "source", "types": types, "pos": where, "desc": desc}, msg)
+    if shard[1] == 10:
+        acc.sample({"source positions": [[w, d, g] for w, d, g, _, _ in pos if d == types[1]][:14]})
+    return acc
+
+
 def run_shard(ctx, shard):
+    if shard[0] == "src":
+        return run_source_shard(ctx, shard)
     acc = Acc()
     fns = _fns()
     _, ad = _bounds(ctx)
@@ -194,6 +411,15 @@ def run_shard(ctx, shard):
 
 
 def replay(ctx, w):
+    if w["fn"] == "source":
+        try:
+            _, bad, _ = judge_source(w["types"])
+        except SourceLayout as e:
+            return "HARNESS: %s" % e
+        except Exception as e:      # noqa
+            return "decompiling raised %s: %s" % (type(e).__name__, e)
+        hit = [m for _, where, desc, m in bad if (where, desc) == (w["pos"], w["desc"])]
+        return "; ".join(hit) if hit else None
     fns = dict(_fns())
     _, bad = judge(w["fn"], fns[w["fn"]], w["desc"], w["size"])
     return bad[1] if bad else None
@@ -248,5 +474,17 @@ def finalize(ctx, acc):
         acc.note("could not inspect writer bindings: %s" % e)
     acc.note("size argument: only bracket structure judged (count = dimensions, pair empty or str(size), at most one "
              "filled); HEAD prints the size in the LAST pair, e.g. get_type('[[I', 7) = 'int[][7]', not judged")
-    acc.note("DvClass.get_source field/parameter/return positions not rendered (needs a DEX generator); covered by "
-             "function identity only")
+    for where in ("field", "param", "return", "local", "cast", "instanceof", "const-class", "new-instance",
+                  "static-field-owner", "invoke-owner", "new-array", "class-name", "extends", "implements", "constructor"):
+        if not acc.extra.get("source_position:" + where):
+            acc.harness_error("source position %r was never extracted" % where)
+    for sh in ("primitive", "default-package", "java.lang-direct", "java.lang-subpackage", "lookalike-package",
+               "java.lang-not-at-start", "java-other-package", "other-package"):
+        if not acc.extra.get("source_shape:" + sh):
+            acc.harness_error("descriptor shape %r never rendered in a source position" % sh)
+    if judge_text("otation.Retention[]", "[Ljava/lang/annotation/Retention;", None,
+                  ref_element("Ljava/lang/annotation/Retention;")) is None:
+        acc.harness_error("oracle self-test: wrong source text accepted")
+    acc.note("source positions accept the canonical or the fully qualified name (HEAD prints the canonical form in member "
+             "positions and the fully qualified one after extends/implements); new-array prints the size in the last "
+             "bracket pair (new X[][3]) - placement not judged, only the number of pairs")
